@@ -1,5 +1,7 @@
 CONSTANTS
-  Descs = {1, 2, 3, 4, 5, 6, 7, 8}
+  Descs = {1, 2, 3, 4, 5, 6, 7, 8, 9, 10}
+  BlankDescs = {9, 10}
+  NewDesc = 9
   ExportDescs = {5, 6, 7, 8}
   GpuDescs = {7}
   PVariant = "asis"
@@ -13,4 +15,5 @@ PROPERTY InitNeverOverwrites
 PROPERTY PatchLeavesSources
 PROPERTY SecondInitIsInert
 PROPERTY PlainExportKeeps
+PROPERTY NewOnlyIntoEmpty
 CHECK_DEADLOCK FALSE
